@@ -29,7 +29,7 @@ ASSUMPTIONS = [
 REAL_VS_STUB = {"real": ["stackscope incl. ctypes frame reads", "real threads, real GIL hand-over at blocking calls", "sys.monitoring / sys.settrace instrumentation of stackscope's own code objects"],
                 "seam": ["stackscope._lowlevel_cpython_310.ctypes (module global) replaced by a pass-through stand-in that judges py_object casts and notes slot reads; nothing in /repo is changed"],
                 "stub": ["generated sync programs", "controller deciding every hand-over", "shadow managers"]}
-RARE_PROBES = ["ident_reused", "loop_template_targets", "retry_loop_taken", "snapshot_rejected", "target_frame_returned_during_inspect", "thread_exited_during_extract", "unstarted_checked", "finished_checked", "preempt_yields", "targeted_handovers", "two_point_handovers", "static_depth_self_checks", "blocked_generator_like_frames_checked", "blocked_frames_with_async_contexts"]
+RARE_PROBES = ["ident_reused", "loop_template_targets", "retry_loop_taken", "snapshot_rejected", "target_frame_returned_during_inspect", "thread_exited_during_extract", "unstarted_checked", "finished_checked", "preempt_yields", "targeted_handovers", "two_point_handovers", "suspended_generator_frames_inspected", "static_depth_self_checks", "blocked_generator_like_frames_checked", "blocked_frames_with_async_contexts"]
 LEGS = [
     {"name": "blocked312", "python": "3.12", "quick": 500, "thorough": 15000, "quick_s": 50, "thorough_s": 400, "run_timeout": 120, "crash_is_violation": True, "params": {"mode": "blocked"}},
     {"name": "blocked311", "python": "3.11", "quick": 250, "thorough": 6000, "quick_s": 40, "thorough_s": 300, "run_timeout": 120, "crash_is_violation": True, "params": {"mode": "blocked"}},
@@ -712,8 +712,25 @@ def run_racing(ctx):
                 if not fr0:
                     continue
                 fr = fr0[t.choose(len(fr0))]
+                if t.choose(4) == 3:
+                    # ... or the suspended frame of a generator the thread is in the middle of (a
+                    # generator-based manager between enter and exit): the thread may resume it
+                    # while it is being looked at
+                    from ..world import stackdepth as _sd
+
+                    susp = [r.pyframe for r in W.frames if r.pyframe is not None and frame_done(r.pyframe) and _sd._owned_by_live_generator(r.pyframe)]
+                    if susp:
+                        fr = susp[t.choose(len(susp))]
+                        ctx.stat("suspended_generator_frames_inspected")
                 rec = W.rec_of(fr)
-                rec.done_frame = lambda rec=rec, fr=fr: frame_done(fr)
+                susp_at_start = frame_done(fr)
+                if susp_at_start:
+                    # "no blocks" is right only once the generator has really finished
+                    from ..world import stackdepth as _sd2
+
+                    rec.done_frame = lambda rec=rec, fr=fr: frame_done(fr) and not _sd2._owned_by_live_generator(fr)
+                else:
+                    rec.done_frame = lambda rec=rec, fr=fr: frame_done(fr)
                 state["rec"] = rec
                 state["snapshots"] = [entered_managers(rec)]
                 with_info = _lowlevel.analyze_with_blocks(fr.f_code)
